@@ -335,7 +335,8 @@ func GenParallel(t *rapid.T, name string, o GenOpts) *rt.Spec {
 			e.I = 0
 		}
 		mp := rt.MapSpec{Unit: unit, Coll: coll, Elem: e, Ctx: prob(t, "ctx", 0.5), Err: prob(t, "err", 0.5),
-			Sp: []string{"lit", "lit", "funcvar"}[uniform(t, "mapsp", 3)]}
+			Sp:   []string{"lit", "lit", "funcvar"}[uniform(t, "mapsp", 3)],
+			KeyK: []string{"", "", "int", "struct"}[uniform(t, "mapkey", 4)], Named: prob(t, "namedmap", 0.3)}
 		unit++
 		coll++
 		if prob(t, "end", o.PEnd) {
